@@ -289,6 +289,27 @@ def outer_items(fam, tier):
                             for c in range(0, k + 1):  # first c pairs are contracted, the rest batched
                                 out.append([n1, n2, list(m1), list(m2), c])
         return out
+    if fam == "histories":
+        # two consecutive calls that share their list-typed ARGUMENT OBJECTS (modes / batched_modes / matrix lists), as a caller
+        # who builds a specification once and reuses it does; the second call must still equal its definition
+        out = []
+        specs = [[[-1], [0]], [[-1], [-1]], [[0], [-1]], [[-2], [0]], [[-1, -2], [0, 1]], [[-2, -1], [1, 0]], [[1], [0]], [[0, -1], [-1, 0]]]
+        for spec in specs:
+            for batched in (False, True):
+                for (n1, n2, n1b, n2b) in [(2, 2, 3, 2), (3, 2, 2, 3), (2, 3, 3, 3), (3, 3, 2, 2), (2, 2, 2, 2)]:
+                    if max(len(spec[0]), 1) + (1 if batched else 0) > min(n1, n2, n1b, n2b) and batched:
+                        continue
+                    out.append(["tensordot", spec, batched, n1, n2, n1b, n2b])
+        for k in (2, 3):
+            for skip1 in [None] + list(range(k)):
+                for skip2 in [None] + list(range(k)):
+                    for second in ("khatri_rao", "kronecker"):
+                        out.append(["matrix-list", k, skip1, skip2, second])
+        for n in (2, 3):
+            for modes in itertools.permutations(range(n)):
+                for skip in [None] + list(range(n)):
+                    out.append(["multi_mode_dot", n, list(modes), skip])
+        return out
     if fam == "mttkrp":
         shp = list(shapes((2, 3), d4)) + list(shapes((4,), d3))
         if T:
@@ -393,6 +414,9 @@ def inner_cases(fam, item, tier, seed):
                 for form in forms:
                     for cplx in (False, True):
                         yield dict(base, sh1=list(sh1), sh2=sh2, cm1=cm1, cm2=cm2, bm1=bm1, bm2=bm2, form=form, cplx=cplx)
+    elif fam == "histories":
+        for cplx in (False, True):
+            yield dict(base, item=item, cplx=cplx)
     elif fam == "mttkrp":
         shape, mode = item
         for rank in (1, 2, 3) + ((4,) if T else ()):
@@ -430,6 +454,7 @@ PARTS = {
     "mttkrp": (2, 1),
     "sample_kr": (3, 6),
     "moment": (1, 1),
+    "histories": (2, 2),
 }
 FAMS = list(PARTS)
 
@@ -770,7 +795,84 @@ def run_moment(case, rn):
     return x.size > 1
 
 
+def run_histories(case, rn):
+    """Sequences of two calls sharing their list-typed argument objects; every call is compared with its definition."""
+    import copy
+
+    item, cplx, seed = case["item"], case["cplx"], case["seed"]
+    kind = item[0]
+    if kind == "tensordot":
+        _, spec, batched, n1, n2, n1b, n2b = item
+        modes = copy.deepcopy(spec)          # ONE object, handed to both calls
+        bm = [[0], [0]] if batched else ()
+        pristine_modes, pristine_bm = copy.deepcopy(modes), copy.deepcopy(bm)
+        for step, (na, nb_) in enumerate([(n1, n2), (n1b, n2b)]):
+            norm = lambda m, n: m % n
+            cm1 = [norm(m, na) for m in pristine_modes[0]]
+            cm2 = [norm(m, nb_) for m in pristine_modes[1]]
+            bm1, bm2 = ([0], [0]) if batched else ([], [])
+            if len(set(cm1 + bm1)) != len(cm1 + bm1) or len(set(cm2 + bm2)) != len(cm2 + bm2):
+                rn.ctx.count("guarded_out:history-spec-not-applicable-to-operand-order")
+                return False
+            sh1 = [2] * na
+            sh2 = [2] * nb_
+            a, b = val(sh1, 2 * step, cplx, seed), val(sh2, 2 * step + 1, cplx, seed)
+            ref = ref_np(R2.tensordot(rt(a), rt(b), cm1, cm2, bm1, bm2))
+            for impl in BACKENDS:
+                rn.call("tensordot", impl, lambda f: f(a, b, modes, batched_modes=bm), [ref],
+                        f"history-step{step + 1},shared-modes-object,negative-indices",
+                        lambda: f"call {step + 1} of a sequence sharing modes={pristine_modes} batched_modes={pristine_bm} (now {modes}, {bm}): "
+                                f"tensordot(A{brief(a)}, B{brief(b)}, modes, batched_modes)")
+        return True
+    if kind == "matrix-list":
+        _, k, skip1, skip2, second = item
+        mats = [val((2 + (i % 2), 2), i, cplx, seed) for i in range(k)]
+        pristine = [m.copy() for m in mats]
+        lst = list(mats)                     # ONE list object for both calls
+        w = weights_for(2, seed)
+        if not (skip1 is not None and k == 1):
+            rem = [m for i, m in enumerate(pristine) if i != skip1]
+            ref = ref_np(R.khatri_rao([rt(m) for m in rem], [x.item() for x in w]))
+            for impl in BACKENDS:
+                rn.call("khatri_rao", impl, lambda f: f(lst, weights=w, skip_matrix=skip1), [ref], "history-step1,shared-matrix-list",
+                        lambda: f"call 1: khatri_rao(list of {k} matrices, weights, skip_matrix={skip1})")
+        if len(lst) != k or any(x is not y for x, y in zip(lst, mats)):
+            pass  # judged by the second call below (and by C15)
+        rem = [m for i, m in enumerate(pristine) if i != skip2]
+        if not rem:
+            return True
+        if second == "khatri_rao":
+            ref = ref_np(R.khatri_rao([rt(m) for m in rem]))
+            for impl in BACKENDS:
+                rn.call("khatri_rao", impl, lambda f: f(lst, skip_matrix=skip2), [ref], "history-step2,shared-matrix-list",
+                        lambda: f"call 2 with the same list object ({len(lst)} entries now): khatri_rao(list, skip_matrix={skip2})")
+        else:
+            ref = ref_np(R.kron([rt(m) for m in rem]))
+            for impl in BACKENDS:
+                rn.call("kronecker", impl, lambda f: f(lst, skip_matrix=skip2), [ref], "history-step2,shared-matrix-list",
+                        lambda: f"call 2 with the same list object ({len(lst)} entries now): kronecker(list, skip_matrix={skip2})")
+        return True
+    if kind == "multi_mode_dot":
+        _, n, modes, skip = item
+        shape = [2, 3, 2][:n]
+        t = val(shape, 0, cplx, seed)
+        ops = [val((2, shape[m]), 1 + i, cplx, seed) for i, m in enumerate(modes)]
+        lst, mds = list(ops), list(modes)    # shared objects
+        for step, sk in enumerate([skip, None]):
+            out = rt(t)
+            for i, (m, mode) in enumerate(zip(ops, modes)):
+                if i != sk:
+                    out = R.mode_dot(out, rt(m), mode)
+            ref = ref_np(out)
+            for impl in BACKENDS:
+                rn.call("multi_mode_dot", impl, lambda f: f(t, lst, modes=mds, skip=sk), [ref], f"history-step{step + 1},shared-modes-and-operand-lists",
+                        lambda: f"call {step + 1} sharing operand list and modes={modes} (now {mds}): multi_mode_dot(T{brief(t)}, ops, modes, skip={sk})")
+        return True
+    raise ValueError(kind)
+
+
 RUNNERS = {
+    "histories": run_histories,
     "mode_dot": run_mode_dot,
     "multi_mode_dot": run_multi_mode_dot,
     "kronecker": run_kronecker,
@@ -795,7 +897,8 @@ class C02(Check):
             "every list order and argument form, rank, every explicit indices_list, moment order) x {real, complex}; a case is one "
             "such point, executed under BOTH tenalg backends (plus the memory MTTKRP); non-trivial iff some operand has >= 2 "
             "entries (or an option such as weights/mask acts, or the call is an ill-shaped one that must not return silently)")
-    assumptions = ["reference formulas: explicit index loops on python ints / complex with integer parts (vmc/ref/core.py, vmc/ref/c02_ref.py)",
+    assumptions = ["family 'histories': pairs of consecutive calls that share their list-typed argument objects (negative-index modes specs, matrix lists, operand/modes lists)",
+                   "reference formulas: explicit index loops on python ints / complex with integer parts (vmc/ref/core.py, vmc/ref/c02_ref.py)",
                    "inputs are integers |x|<=3 (Gaussian integers |re|,|im|<=2): every partial sum < 2**53, so float64 results are exact and compared with == (DESIGN 1.6 rung 1)",
                    "higher_order_moment: exact sum, one division; == when n_samples is a power of two, else 1e-12 relative (rung '1e-12: one division')",
                    "numpy array_equal / shape / asarray are trusted; weights are real wherever a routine conjugates (conjugation of weights not demanded)",
